@@ -26,8 +26,26 @@ import ast
 import os
 import sys
 
-sys.path.insert(0, os.path.dirname(os.path.abspath(__file__)))
-import astutil_G3 as A  # noqa: E402
+
+
+def _load_helpers():
+    """astutil_G3.py from this directory, without putting the directory on sys.path"""
+    import importlib.util
+
+    if "astutil_G3" not in sys.modules:
+        path = os.path.join(os.path.dirname(os.path.abspath(__file__)), "astutil_G3.py")
+        spec = importlib.util.spec_from_file_location("astutil_G3", path)
+        mod = importlib.util.module_from_spec(spec)
+        sys.modules["astutil_G3"] = mod
+        try:
+            spec.loader.exec_module(mod)
+        except BaseException:
+            del sys.modules["astutil_G3"]
+            raise
+    return sys.modules["astutil_G3"]
+
+
+A = _load_helpers()
 from translate import TranslateError, generator, parse, txt_list, HEADER  # noqa: E402
 
 X86 = "osaca/parser/parser_x86att.py"
@@ -232,7 +250,12 @@ def str_collections(fn, sc, what):
                     and isinstance(owner, (ast.GeneratorExp, ast.ListComp, ast.SetComp)))
             cand.append((n.iter, free))
         elif isinstance(n, ast.For):
-            cand.append((n.iter, False))
+            # `for x in names: if <test on x>: return <constant>` is an any-of test as well
+            b = n.body
+            free = (not n.orelse and len(b) == 1 and isinstance(b[0], ast.If) and not b[0].orelse
+                    and len(b[0].body) == 1 and isinstance(b[0].body[0], ast.Return)
+                    and isinstance(b[0].body[0].value, ast.Constant))
+            cand.append((n.iter, free))
         elif (isinstance(n, ast.Call) and isinstance(n.func, ast.Attribute) and n.func.attr in ("startswith", "endswith")
               and len(n.args) == 1):
             cand.append((n.args[0], True))
